@@ -430,4 +430,106 @@ class StoreEngine(Engine):
     return {'obs': obs, 'fails': fails[:2], 'nontrivial': rebinds, 'tags': ['calls%d' % len(c['calls'])]}
 
 
-ENGINES = [ValueEngine(), ApiEngine(), StoreEngine()]
+# Python's three physical line terminators (language reference 2.1.2: LF, CR LF, and a lone CR)
+LINE_BREAKS = ['\n', '\r\n', '\r']
+CR_LITERALS = ['[1,\r2]', '[\r]', '[1\r, 2]', '(1,\r)', '[1, # one\r 2]', '{1\r: 2}', "['a'\r 'b']", '(\r-\r1)', '{\r}', '[1,\r\n2\r\n]',
+               '[\r\n]', "{'k':\r[1,\r\n 2],\n}", '[\r  [1, 2],\r  [3, 4],\r]', '["""a\rb""", \\\r 2]', '[1,\r\r2]', '((\r1,\r),\r)']
+CR_NEAR_MISSES = ["'a\rb'", "['a\rb']", '[1\r', '[1\r2]', '[1,\r2]]', '[1 +\r2]', '(\r)\r1']
+
+
+class LineBreakEngine(Engine):
+  """'with comments and line breaks inside brackets ... in every layout': generator A's literals with every line break
+  of the layout spelled in one of the three ways Python reads a line break (LF, CR LF, lone CR), given to the parser the
+  three ways a text reaches it without a text-mode file translating the line ends first (a config string, a binary
+  file-like, gin.config.parse_value).  Each must give what ast.literal_eval gives for that very text; texts Python
+  rejects must be rejected.  Implementation only: texts containing CR are not sent to the Coq model (ASSUMPTIONS)."""
+  name = 'line-break-forms'
+  model = False
+  rule = ('line-break-forms: generator A literals (depth 1-4) whose line breaks inside brackets (and inside triple-quoted '
+          'pieces / continuations) are each spelled LF, CR LF or CR at random, at least one of them not LF; routes: '
+          '"x.p = <text>" as a string, the same as a binary file-like, gin.config.parse_value(<text>); judged against '
+          'ast.literal_eval(<text>). non-trivial = a CR or CR LF line break inside a bracket.')
+
+  def budget(self, tier):
+    return 400 if tier == 'quick' else 20000
+
+  def corpus(self):
+    return ([{'kind': 'grammar', 'text': t} for t in CR_LITERALS] + [{'kind': 'near-miss', 'text': t} for t in CR_NEAR_MISSES])
+
+  def gen(self, rng, tier):
+    for _ in range(40):
+      t = gen_tree(rng, rng.choice([1, 2, 3, 4]))
+      if t[0] == 'atom':
+        t = (rng.choice(['list', 'tuple']), [t, gen_tree(rng, 1)])
+      text = render(rng, t)
+      n = text.count('\n')
+      if not n:
+        continue
+      forced = rng.randrange(n)
+      parts = text.split('\n')
+      out = parts[0]
+      for i, part in enumerate(parts[1:]):
+        out += (rng.choice(LINE_BREAKS[1:]) if i == forced else rng.choice(LINE_BREAKS)) + part
+      if P.lit_eval(out) is not None:
+        return {'kind': 'grammar', 'text': out}
+    return {'kind': 'grammar', 'text': '[1,\r2,\r\n3]'}
+
+  def shrink(self, case):
+    t = case['text']
+    for i in range(len(t)):
+      cand = t[:i] + t[i + 1:]
+      if '\r' in cand and (P.lit_eval(cand) is not None) == (case['kind'] == 'grammar'):
+        yield {'kind': case['kind'], 'text': cand}
+
+  def routes(self, gin, text):
+    import io
+    import warnings
+    warnings.simplefilter('ignore')
+
+    def statement(source):
+      obs = P.run_statements(gin, source)
+      if len(obs) == 1 and obs[0].tag == 'Bind' and tuple(obs[0].args[:3]) == ('', 'x', 'p'):
+        return T('Value', obs[0].args[3])
+      return T('Rejected', obs)
+
+    def api():
+      try:
+        return T('Value', P.canon_lit(gin.config.parse_value(text)))
+      except SyntaxError as e:
+        return T('Rejected', [T('SyntaxError', e.lineno or 0)])
+      except Exception as e:  # pylint: disable=broad-except
+        return T('Rejected', [T('Err', type(e).__name__)])
+    return [('config-string', statement('x.p = ' + text)), ('binary-file', statement(io.BytesIO(('x.p = ' + text).encode('utf8')))),
+            ('parse_value', api())]
+
+  def impl(self, case):
+    gin = C.cached_gin()
+    text = case['text']
+    ref = P.lit_eval(text)
+    fails, obs = [], []
+    for route, got in self.routes(gin, text):
+      obs.append([route, got])
+      if case['kind'] == 'grammar' and ref is not None:
+        if got.tag != 'Value':
+          lf = dict(self.routes(gin, text.replace('\r\n', '\n').replace('\r', '\n')))[route]
+          fails.append(('line-break-form-rejected', '%s: %r (= %r in Python) was rejected: %r; with every line break written LF: %r' %
+                        (route, text, C.jsonable(ref), C.jsonable(got), C.jsonable(lf))))
+        elif got.args[0] != ref:
+          fails.append(('line-break-form-different-value', '%s: %r gave %r, Python evaluates it to %r' %
+                        (route, text, C.jsonable(got.args[0]), C.jsonable(ref))))
+      elif ref is None:
+        last = got.args[0][-1] if got.tag == 'Rejected' and got.args[0] else None
+        if got.tag == 'Value':
+          fails.append(('accepted-non-literal', '%s: %r gave %r but Python cannot evaluate it as a literal' %
+                        (route, text, C.jsonable(got.args[0]))))
+        elif isinstance(last, T) and last.tag == 'Err' and last.args[0] not in ('TokenError', 'TypeError'):
+          fails.append(('wrong-rejection-class', '%s: %r rejected with %s' % (route, text, last.args[0])))
+    depth, nontrivial = 0, False
+    for ch in text:
+      depth += (ch in '([{') - (ch in ')]}')
+      nontrivial = nontrivial or (ch == '\r' and depth > 0)
+    tags = [case['kind']] + (['CRLF'] if '\r\n' in text else []) + (['CR'] if '\r' in text.replace('\r\n', '') else [])
+    return {'obs': obs, 'fails': fails[:3], 'nontrivial': nontrivial, 'tags': tags}
+
+
+ENGINES = [ValueEngine(), ApiEngine(), StoreEngine(), LineBreakEngine()]
